@@ -178,7 +178,8 @@ Definition spec_code (c : c12case) : Z :=
                 (fun s o => bool_code (arg 0 o <=? fst s + snd s) 701) (0, 0) tr
     else if comp =? 8 then spec_fold (fun (u : unit) _ _ => u) (fun _ o => bool_code (all_le 5 o) 801) tt tr
     else if comp =? 9 then
-      (* recorders <= currently bound streams; 901 = the excess appears after an Unbind (F38) *)
+      (* recorders <= currently bound streams; 901 = the excess appears after an Unbind (F38, fixed by
+         0d520bf: a regression of releaseRecorder reports 901), 903 = without any Unbind *)
       spec_fold (fun (s : list Z * bool) opc a => (set_upd 1 2 (fst s) opc a, snd s || (opc =? 2)))
                 (fun s o => if arg 0 o <=? zlen (fst s) then 0 else if snd s then 901 else 903) ([], false) tr
     else if comp =? 10 then
@@ -199,10 +200,11 @@ Definition spec_code (c : c12case) : Z :=
     else if comp =? 15 then
       (* every reported packet is released: entries <= packets added - packets reported
          (argument of opcode 4 = number of packet reports the implementation returned);
-         the two indexes never exceed the packet map *)
+         the two indexes together never exceed the packet map (a packet is indexed by its TWCC number
+         or by SSRC/sequence number, by at most one entry: theorem C12_rtpfb_indexes_bounded) *)
       spec_fold (fun (s : Z) opc a => if opc =? 1 then s + 1 else if opc =? 4 then s - arg 0 a else s)
                 (fun s o => if negb (arg 0 o <=? s) then 1501
-                            else bool_code ((arg 1 o <=? arg 0 o) && (arg 2 o <=? arg 0 o)) 1505) 0 tr
+                            else bool_code (arg 1 o + arg 2 o <=? arg 0 o) 1505) 0 tr
     else 9999 in
   if negb (bound_code =? 0) then bound_code
   else if negb (comp =? 12) && grows3 (if comp =? 5 then map (firstn 1) (marks tr) else marks tr) then
